@@ -1,14 +1,18 @@
 """PowerFlow group: C01 (energy ledger closes), C08 (second law; engine off burns nothing),
 C09 (accepted steps respect ratings, transient limits, ramp rate, SOC window) at single-locomotive level
-(conventional and battery-electric).  One pipeline serves the three properties: TLC model-checks
+(conventional, battery-electric and hybrid units).  One pipeline serves the three properties: TLC model-checks
 PowerFlow.tla (Level B => Level A) and emits every behaviour, avh_power replays each into a real Locomotive
 call by call and again through LocomotiveSimulation::walk, PowerFlowTrace.tla evaluates every Level-A
 conjunct by name on every recorded state."""
 import time
 
 LEDGER = ["L1", "L2", "L3", "L4", "L5", "L6", "L7", "L8", "L9", "L10"]
-C01_INV = LEDGER + [x + "s" for x in LEDGER] + ["Integ", "AuxCurtailed", "NoNaN", "InRange", "NoPanic", "HarnessOk"]
-C08_INV = ["LossNonNeg", "EtaRange", "OrderFc", "OrderGen", "OrderEdrv", "OrderRes", "Monotone", "DynBrakeSign", "EngineOff"]
+C01_INV = LEDGER + [x + "s" for x in LEDGER] + ["Integ", "AuxCurtailed", "HybAuxRoll", "HybGssPanic", "NoNaN", "InRange",
+                                                 "NoPanic", "HarnessOk"]
+C08_INV = ["LossNonNeg", "EtaRange", "OrderFc", "OrderGen", "OrderEdrv", "OrderRes", "Monotone", "DynBrakeSign", "EngineOff",
+           "HybEngineOff"]
+BH = ["FcRating", "FcTransient", "GenRating", "EdrvRating", "ResRating", "ResDisch", "ResCharge", "LocoPub", "SocWindow",
+      "Ramp", "PublishedSane"]
 C09_INV = ["FcRating", "FcTransient", "GenRating", "EdrvRating", "ResRating", "ResDisch", "ResCharge", "LocoPub",
            "Ramp", "SocWindow", "PublishedSane", "PublishOk"]
 
@@ -31,19 +35,39 @@ def sig_aux_curtailed(desc, events, inv):
     return cfg.get("kind") == "bel"
 
 
+def _sig_hyb(name):
+    def sig(desc, events, inv):
+        if inv != name:
+            return False
+        cfg = desc.get("cfg")
+        return True if cfg is None else cfg.get("kind") == "hyb"     # cfg None: details truncated, class decided by TLC
+    return sig
+
+
+# F-C01-2 / F-C08-2 / F-C01-3: PowerFlowTrace reports these names only for hybrid units (HybGssPanic only for a panic of
+# a hybrid in golden-section mode); the same relations on every other unit are L10s / EngineOff / NoPanic.
+sig_hyb_aux = _sig_hyb("HybAuxRoll")
+sig_hyb_engine_off = _sig_hyb("HybEngineOff")
+sig_hyb_gss_panic = _sig_hyb("HybGssPanic")
+
+
 RULE = ("cases = every behaviour (unit constants, initial SOC, sequence of <engine on/off, dt, demand class relative to the "
         "just-published limits>) reached by TLC in the bounded PowerFlow configs (sampled to max_emit per config in the "
         "quick tier) + seeded generator runs (flat and non-flat dyadic 1-D maps, 3-D battery maps, variable dt, limit "
-        "riding, 8-160 steps) + the materialised input of F-C01-1; each is executed call by call and through "
+        "riding, 8-160 steps; units where each component in turn is the binding one; hybrids with fixed split and with the "
+        "golden-section split) + the materialised inputs of the known findings; each is executed call by call and through "
         "LocomotiveSimulation::walk; distinct = distinct case descriptors (sha256); non-trivial = at least one step "
         "with non-zero demand")
 
 ASSUME_COMMON = [
-    "single locomotive (ConventionalLoco, BatteryElectricLoco) driven exactly like LocomotiveSimulation::solve_step: "
+    "single locomotive (ConventionalLoco, BatteryElectricLoco, HybridLoco) driven exactly like LocomotiveSimulation::solve_step: "
     "set_pwr_aux, set_cur_pwr_max_out, solve_energy_consumption, step; after an Err the caller continues from a clone "
     "taken before the call (the half-updated components of a rejected step are not part of any invariant)",
-    "toy-scale dyadic parameters (ratings 256 W .. 4 kW): the powertrain code is scale-free apart from the absolute "
-    "1e-3 W branch of almost_le, which the spec models",
+    "toy-scale dyadic parameters (ratings 16 W .. 4 kW): the powertrain code is scale-free apart from the absolute "
+    "1e-3 W branch of almost_le, which the spec models; hybrids are real-sized (64-256 kW) because HybridLoco loads its "
+    "generator with a hard-coded 50 kW",
+    "HybridLoco: Level B transcribes the fixed split (fuel_res_ratio = None, fuel_res_split in {0, 1/2, 1}); the "
+    "golden-section mode is exercised by generated cases and judged by Level A only",
     "tolerance 0 on records flagged exact (every logged value is an integer at its power-of-two scale); otherwise "
     "n/2 units for an additive relation of n rounded terms",
 ]
@@ -52,30 +76,39 @@ ASSUME = {
         "consist roll-ups (LC: consist totals = sum over units) are evaluated by the ConsistSplit pipeline as Roll* and "
         "decided here for C01 (quick tier: a reduced run of that pipeline)",
         "L10 (loco.energy_aux = component aux energy) is reported as AuxCurtailed inside the input class of F-C01-1 and "
-        "as L10s/L10 everywhere else"],
+        "as L10s/L10 everywhere else; for hybrid units as HybAuxRoll (F-C01-2), a panic of a hybrid in golden-section "
+        "mode as HybGssPanic (F-C01-3)"],
     "C08": ASSUME_COMMON + [
         "efficiency map values lie in (0, 1] (flat 1/k, k in {1,2,4}; generated maps use values in [1/4, 1])",
-        "eta is logged rounded up at 2^-16: an excess above 1 of any size is visible, a value in (0, 2^-16] shows as 1"],
+        "eta is logged rounded up at 2^-16: an excess above 1 of any size is visible, a value in (0, 2^-16] shows as 1",
+        "EngineOff is reported as HybEngineOff for hybrid units (F-C08-2)"],
     "C09": ASSUME_COMMON + [
         "assert_limits = true; pwr_out_max_init <= pwr_out_max (floor <= rating)",
         "SocWindow: initial SOC inside [min_soc, max_soc] and every accepted step so far had "
         "dt <= DtSafe = min(eta_r * E*(lo_ramp-min)/(P_max*1.001), E*(max-hi_ramp)/P_max); beyond DtSafe the linear "
         "derating does not protect the window (shown by TLC and by replay), those steps are recorded but not judged",
         "LocoPub (wheel power within the published locomotive limit + eps worth of the source check) is stated for "
-        "flat efficiency maps and positive traction only",
+        "flat efficiency maps and positive traction only; for hybrids additionally pwr_aux <= 50 kW (their published limit "
+        "subtracts pwr_aux twice while the solve loads the generator with the hard-coded 50 kW once)",
         "braking beyond the drivetrain rating is accepted by a stand-alone locomotive (only a consist guards "
         "pwr_dyn_brake_max): EdrvRating constrains pwr_mech_prop_out, the braking clause is C10's",
         "eps = TOL = 1e-3 (fuel_converter.rs:5, reversible_energy_storage.rs:6) via utils::almost_le (utils/mod.rs:169)"],
 }
 
 
+BH_MIN = 100     # every C09 conjunct must be evaluated at least this often within Band of its own limit
+
+
 def _vacuity(r):
     s = r["stats"]
     need = ["accepted", "rejected", "hist", "exact", "b_checked", "soc_checked", "eng_off", "regen", "dynbrk", "at_limit",
-            "curtailed"]
+            "curtailed", "hyb_acc", "hyb_off", "hyb_gss", "rej_over"]
     zero = [k for k in need if s.get(k, 0) == 0]
     if zero:
         return f"trace never exercised: {zero} (stats {s})"
+    thin = {k: s.get("bh_" + k, 0) for k in BH if s.get("bh_" + k, 0) < BH_MIN}
+    if thin:
+        return f"fewer than {BH_MIN} boundary hits for {thin}"
     if s.get("hist", 0) < s.get("accepted", 0) // 2:
         return f"walk produced far fewer history records ({s.get('hist')}) than accepted steps ({s.get('accepted')})"
     return None
@@ -89,29 +122,116 @@ def _cov_extra(res):
                 drift_samples=(res.get("tags", {}).get("DRIFT") or [[]])[0][:4],
                 accepted_steps=s.get("accepted", 0) + s.get("hist", 0), rejected_steps=s.get("rejected", 0),
                 exact_records=s.get("exact", 0), inexact_records=s.get("inexact", 0),
-                known_class_steps_F_C01_1=s.get("curtailed", 0), **_ROLL)
+                known_class_steps_F_C01_1=s.get("curtailed", 0),
+                hybrid_steps=dict(accepted=s.get("hyb_acc", 0), engine_off=s.get("hyb_off", 0), golden_section=s.get("hyb_gss", 0)),
+                boundary_hits={k: s.get("bh_" + k, 0) for k in BH},
+                over_limit_requests_rejected=s.get("rej_over", 0), **_ROLL)
+
+
+# ---- bin/selftest: one recorded field corrupted -> the trace spec must name the invariant at exactly that line ----
+def _kinds(ev):
+    return {e["case"]: e["desc"]["cfg"] for e in ev if e.get("ev") == "begin"}
+
+
+def _corrupt(kind, pred, change, expect, what="Solve"):
+    """first call-by-call record `what` of a unit of `kind` (None = any) that is the first accepted step of its case
+    (so that no tolerance applies) and satisfies pred(event, cfg, previous Pub event)"""
+    def fn(ev):
+        cfgs = _kinds(ev)
+        first_acc = {}
+        for i, e in enumerate(ev):
+            if e.get("ev") == "Solve" and e.get("acc") and not e.get("walk"):
+                first_acc.setdefault(e["case"], i)
+        for i, e in enumerate(ev):
+            if e.get("ev") != what or e.get("walk"):
+                continue
+            cfg = cfgs[e["case"]]
+            if kind and cfg["kind"] not in kind:
+                continue
+            if what == "Solve":
+                if not e.get("acc") or first_acc.get(e["case"]) != i or not e["exact"] or not ev[i - 1].get("exact"):
+                    continue
+                pub = ev[i - 1]
+            else:
+                if not e.get("exact") or first_acc.get(e["case"], 1 << 30) < i:
+                    continue
+                pub = e
+            if not pred(e, cfg, pub):
+                continue
+            change(e, cfg, pub)
+            return ev, i, expect
+        return None
+    return fn
+
+
+def _bump(rec, key, d=64):
+    return lambda e, c, pb: e[rec].__setitem__(key, e[rec][key] + d)
+
+
+_any = lambda e, c, pb: True
+_trac = lambda e, c, pb: e["req"] > 0
+FC, RS = ("conv", "hyb"), ("bel", "hyb")
+CORRUPT = {
+    "fuel_power": _corrupt(FC, _any, _bump("p", "fuel"), ["L1s"]),
+    "shaft_vs_generator_input": _corrupt(FC, _any, _bump("p", "mech"), ["L2s"]),
+    "generator_loss_energy": _corrupt(FC, _any, _bump("e", "lossg"), ["L3"]),
+    "hybrid_source_handoff": _corrupt(("hyb",), _trac, _bump("p", "gprop"), ["L4s"]),
+    "drivetrain_input_in_regen": _corrupt(("bel",), lambda e, c, pb: e["p"]["oute"] < 0, _bump("p", "ine"), ["L5s"]),
+    "wheel_power": _corrupt(None, _any, _bump("p", "out"), ["L6s"]),
+    "battery_electrical": _corrupt(RS, _any, _bump("p", "elec"), ["L7s"]),
+    "soc": _corrupt(RS, _any, lambda e, c, pb: e.__setitem__("soc", e["soc"] + 64), ["L8", "L8s"]),
+    "headline_energy": _corrupt(FC, _any, _bump("e", "lossf"), ["L9"]),
+    "aux_rollup": _corrupt(("conv",), lambda e, c, pb: pb["eng"], _bump("p", "aux"), ["L10s"]),
+    "energy_not_power_times_dt": _corrupt(None, _any, _bump("e", "dyn"), ["Integ"]),
+    "negative_loss": _corrupt(FC, _any, lambda e, c, pb: e["p"].__setitem__("lossg", -64), ["LossNonNeg"]),
+    "eta_above_one": _corrupt(None, _any, lambda e, c, pb: e["eta"].__setitem__("e", 65537), ["EtaRange"]),
+    "fuel_below_shaft": _corrupt(FC, _any, lambda e, c, pb: e["p"].__setitem__("fuel", e["p"]["brake"] - 64), ["OrderFc"]),
+    "generator_out_above_in": _corrupt(FC, _any, lambda e, c, pb: e["p"].__setitem__("mech", e["p"]["gprop"] + e["p"]["gaux"] - 64), ["OrderGen"]),
+    "drivetrain_out_above_in": _corrupt(None, _trac, lambda e, c, pb: e["p"].__setitem__("oute", e["p"]["ine"] + 64), ["OrderEdrv"]),
+    "battery_out_above_chem": _corrupt(RS, lambda e, c, pb: e["p"]["elec"] > 0, lambda e, c, pb: e["p"].__setitem__("chem", e["p"]["elec"] - 64), ["OrderRes"]),
+    "energy_decreases": _corrupt(None, _any, lambda e, c, pb: e["e"].__setitem__("losse", -64), ["Monotone"]),
+    "dyn_brake_in_traction": _corrupt(None, _trac, lambda e, c, pb: e["p"].__setitem__("dyn", 64), ["DynBrakeSign"]),
+    "fuel_with_engine_off": _corrupt(("conv",), lambda e, c, pb: not pb["eng"], lambda e, c, pb: e["p"].__setitem__("fuel", 64), ["EngineOff"]),
+    "shaft_above_rating": _corrupt(FC, _any, lambda e, c, pb: e["p"].__setitem__("brake", 2 * c["rfc"]), ["FcRating"]),
+    "shaft_above_transient": _corrupt(FC, lambda e, c, pb: pb["pub"]["fc"] < c["rfc"], lambda e, c, pb: e["p"].__setitem__("brake", pb["pub"]["fc"] + pb["pub"]["fc"] // 100), ["FcTransient"]),
+    "generator_above_rating": _corrupt(FC, _any, lambda e, c, pb: e["p"].__setitem__("gprop", c["rgen"] + 64), ["GenRating"]),
+    "drivetrain_above_rating": _corrupt(None, _trac, lambda e, c, pb: e["p"].__setitem__("oute", c["redrv"] + 64), ["EdrvRating"]),
+    "battery_above_rating": _corrupt(RS, lambda e, c, pb: e["p"]["elec"] > 0, lambda e, c, pb: e["p"].__setitem__("elec", 2 * c["rres"]), ["ResRating"]),
+    "battery_above_discharge_limit": _corrupt(RS, lambda e, c, pb: e["p"]["elec"] > 0 and pb["pub"]["disch"] < c["rres"], lambda e, c, pb: e["p"].__setitem__("elec", pb["pub"]["disch"] + pb["pub"]["disch"] // 100 + 64), ["ResDisch"]),
+    "battery_above_charge_limit": _corrupt(RS, lambda e, c, pb: e["p"]["elec"] < 0, lambda e, c, pb: e["p"].__setitem__("elec", -2 * c["rres"]), ["ResCharge"]),
+    "wheel_above_published": _corrupt(None, lambda e, c, pb: e["req"] > 0 and c["flat"], lambda e, c, pb: e["p"].__setitem__("out", pb["pub"]["loco"] + pb["pub"]["loco"] // 50 + 64), ["LocoPub"]),
+    "soc_below_window": _corrupt(RS, lambda e, c, pb: pb["dtq"] * c["kr"] * c["rres"] <= (c["slo"] - c["smin"]) // 1001 * 1000, lambda e, c, pb: e.__setitem__("soc", c["smin"] // 2), ["SocWindow"]),
+    "transient_limit_above_ramp": _corrupt(FC, lambda e, c, pb: e["pub"]["fc"] < c["rfc"], lambda e, c, pb: e["pub"].__setitem__("fc", e["pub"]["fc"] + 64), ["Ramp"], what="Pub"),
+    "published_discharge_negative": _corrupt(RS, _any, lambda e, c, pb: e["pub"].__setitem__("disch", -64), ["PublishedSane"], what="Pub"),
+    "published_wheel_above_rating": _corrupt(None, _any, lambda e, c, pb: e["pub"].__setitem__("loco", c["redrv"] + 64), ["PublishedSane"], what="Pub"),
+}
 
 
 GROUP = dict(
     name="powerflow", bin="avh_power",
     model_spec="MCPowerFlow.tla", trace_spec="PowerFlowTrace.tla", trace_cfg="PowerFlowTrace.cfg",
     models={
-        "quick": [dict(cfg="MCPowerFlow_quickC.cfg", emit=True, max_emit=2000),
-                  dict(cfg="MCPowerFlow_quickB.cfg", emit=True, max_emit=2000),
+        # depth 3, emitted and sampled: base units + one unit per binding component (C, B), hybrids (H)
+        "quick": [dict(cfg="MCPowerFlow_quickC.cfg", emit=True, max_emit=1800),
+                  dict(cfg="MCPowerFlow_quickB.cfg", emit=True, max_emit=1500),
+                  dict(cfg="MCPowerFlow_quickH.cfg", emit=True, max_emit=1500),
                   dict(cfg="MCPowerFlow_minsoc.cfg", emit=True, may_be_zero=("Reject",))],
-        # depth 3 emitted (sampled), depth 4 emitted (sampled), depth 3 over every efficiency combination and
-        # depth 5 on one unit per kind with the history hidden by VIEW (exhaustive, not emitted)
+        # depth 3 emitted (sampled), depth 4 emitted (sampled), depth 3 over every efficiency combination / binding
+        # variant and depth 5 on one unit per kind with the history hidden by VIEW (exhaustive, not emitted)
         "thorough": [dict(cfg="MCPowerFlow_quickC.cfg", emit=True, max_emit=8000),
                      dict(cfg="MCPowerFlow_quickB.cfg", emit=True, max_emit=8000),
+                     dict(cfg="MCPowerFlow_quickH.cfg", emit=True, max_emit=8000),
                      dict(cfg="MCPowerFlow_minsoc.cfg", emit=True, may_be_zero=("Reject",)),
-                     dict(cfg="MCPowerFlow_thorC4.cfg", emit=True, max_emit=8000, workers=12, timeout=1200),
-                     dict(cfg="MCPowerFlow_thorB4.cfg", emit=True, max_emit=8000, workers=12, timeout=1200),
+                     dict(cfg="MCPowerFlow_thorC4.cfg", emit=True, max_emit=6000, workers=12, timeout=1200),
+                     dict(cfg="MCPowerFlow_thorB4.cfg", emit=True, max_emit=6000, workers=12, timeout=1200),
+                     dict(cfg="MCPowerFlow_thorH4.cfg", emit=True, max_emit=6000, workers=12, timeout=1200),
                      dict(cfg="MCPowerFlow_thorC3.cfg", emit=False, workers=12, timeout=1800),
                      dict(cfg="MCPowerFlow_thorB3.cfg", emit=False, workers=12, timeout=1800),
+                     dict(cfg="MCPowerFlow_thorH3.cfg", emit=False, workers=12, timeout=1800),
                      dict(cfg="MCPowerFlow_thorC5.cfg", emit=False, workers=12, timeout=1800),
                      dict(cfg="MCPowerFlow_thorB5.cfg", emit=False, workers=12, timeout=1800)],
     },
-    gen_n={"quick": 120, "thorough": 800},
+    gen_n={"quick": 180, "thorough": 900},
     per_case_ms=20000,
     nontrivial=nontrivial,
     rule=RULE,
@@ -120,7 +240,18 @@ GROUP = dict(
         "C08": dict(invariants=C08_INV, assumptions=ASSUME["C08"], coverage_extra=_cov_extra),
         "C09": dict(invariants=C09_INV, assumptions=ASSUME["C09"], coverage_extra=_cov_extra),
     },
-    sigs={"aux_curtailed": sig_aux_curtailed},
+    sigs={"aux_curtailed": sig_aux_curtailed, "hyb_aux": sig_hyb_aux, "hyb_engine_off": sig_hyb_engine_off,
+          "hyb_gss_panic": sig_hyb_gss_panic},
+    # bin/selftest: Level B with one deliberate defect must break the named invariant ...
+    fault_models=[dict(cfg="MCPowerFlow_auxroll.cfg", expect=["AuxCurtailed"]),           # F-C01-1 as the code has it
+                  dict(cfg="MCPowerFlow_fault_hybaux.cfg", expect=["HybAuxRoll"]),        # F-C01-2 as the code has it
+                  dict(cfg="MCPowerFlow_fault_hybengoff.cfg", expect=["HybEngineOff"]),   # F-C08-2 as the code has it
+                  dict(cfg="MCPowerFlow_fault_idle.cfg", expect=["EngineOff"]),           # F-C08-1 reverted
+                  dict(cfg="MCPowerFlow_fault_transient.cfg", expect=["FcTransient"]),
+                  dict(cfg="MCPowerFlow_fault_genaux.cfg", expect=["GenRating"]),
+                  dict(cfg="MCPowerFlow_fault_socsign.cfg", expect=["L8", "L8s"])],
+    # ... and a recorded trace with one field corrupted must be rejected with the named invariant at that line
+    corrupt=CORRUPT, selftest_cases=90,
     vacuity=_vacuity,
     harness_timeout={"quick": 300, "thorough": 1800},
     trace_timeout={"quick": 300, "thorough": 2400},
@@ -198,31 +329,34 @@ def run(pid, tier, seed, replay, t0):
 ENGINE = dict(name="PowerFlow", path="specs/PowerFlow.tla", serves_properties=["C01", "C08", "C09"],
               kind_free_text="TLA+ spec (Level A: Ledger L1-L10 / SecondLaw / Monotone / EngineOff / WithinLimits / Ramp / "
                              "SocWindow / PublishedSane; Level B: integer-lattice transcription of set_pwr_aux, "
-                             "set_cur_pwr_max_out, solve_energy_consumption, step for ConventionalLoco and "
-                             "BatteryElectricLoco), TLC exhaustive on bounded behaviours, every behaviour replayed into a "
+                             "set_cur_pwr_max_out, solve_energy_consumption, step for ConventionalLoco, "
+                             "BatteryElectricLoco and HybridLoco (fixed split)), TLC exhaustive on bounded behaviours, every behaviour replayed into a "
                              "real Locomotive and a real LocomotiveSimulation::walk, recorded states validated by TLC "
                              "(PowerFlowTrace.tla)")
 _NOTE = ("Trusted: TLC, the harness projection of the public state structs to integers (Q-encoding, scales powers of two), "
          "avh::build::loco. Bounded: exhaustive up to depth 3-5 on the toy lattice with flat efficiencies 1/k; non-flat maps, "
-         "long runs and variable dt only through the seeded generator (tolerance n/2 units off the lattice). Single "
-         "locomotive; consists are ConsistSplit's.")
+         "long runs, variable dt and the hybrid's golden-section split only through the seeded generator (tolerance n/2 units "
+         "off the lattice). Single locomotive; consists are ConsistSplit's.")
 _TECH = "TLA+ spec + TLC model checking + spec->impl replay + TLC trace validation"
 MANIFEST = {
     "C01": dict(engine="PowerFlow", design_ref="3 (C01)", technique=_TECH,
                 text="TLC checks the ledgers L1-L10 (cumulative, per step, and delta e = p*dt) on every reachable state of the "
                      "Level-B model and re-evaluates each by name on every state the real Locomotive recorded for every "
                      "emitted behaviour (call by call and through LocomotiveSimulation::walk) plus seeded generator runs. "
-                     "Re-finds F-C01-1 (BEL aux curtailed at low SOC) in the model and on the code.",
+                     "Re-finds F-C01-1 (BEL aux curtailed at low SOC) in the model and on the code; hybrid units: ledger holds except "
+                     "the aux roll-up (F-C01-2, hard-coded 50 kW) and a panic of the golden-section split (F-C01-3).",
                 note=_NOTE),
     "C08": dict(engine="PowerFlow", design_ref="3 (C08)", technique=_TECH,
                 text="Same runs as C01; TLC evaluates LossNonNeg, EtaRange, the converter order relations, Monotone, "
                      "DynBrakeSign and EngineOff on every recorded accepted step (all engine on/off words of the bounded "
-                     "depth, regeneration, map clamps). EngineOff holds after the repair of F-C08-1 and detects its reversal.",
+                     "depth, regeneration, map clamps). EngineOff holds after the repair of F-C08-1 and detects its reversal; a hybrid "
+                     "commanded off keeps burning fuel (F-C08-2).",
                 note=_NOTE),
     "C09": dict(engine="PowerFlow", design_ref="3 (C09)", technique=_TECH,
                 text="Same runs as C01 with demand classes chosen adversarially after set_cur_pwr_max_out (0, 1/2 pub, pub-d, "
                      "pub, pub+d, pub+1.6 %, -regen_pub +- d, -dyn_max, -dyn_max-d); TLC evaluates the rating / transient / "
                      "ramp / SOC-window / published-limit predicates with the code's own eps = 1e-3; an accepted over-limit "
-                     "request is a recorded state that fails WithinLimits.",
+                     "request is a recorded state that fails WithinLimits. Unit families make each component in turn the binding one; "
+                     "evidence.coverage.boundary_hits counts, per conjunct, the recorded states within 1/64 of that conjunct's limit.",
                 note=_NOTE),
 }
